@@ -159,6 +159,10 @@ func (fb *fileBuilder) printMessage(msg protoreflect.MessageDescriptor) error {
 		if oneof.IsSynthetic() {
 			continue
 		}
+		if oneof.Fields().Len() == 0 {
+			// 'oneof x {}' is not valid proto source
+			continue
+		}
 		elements.add(oneof)
 	}
 
